@@ -78,6 +78,23 @@ theorem method_gate (cfg : Cfg) (t0 : Int) (req : Req) (tr : List Step) (r : Res
               exact hin _ hall hmem
           · cases h1; simp at hmem
 
+/-- what the gate lets through is a GET that carries no Range field line at all (an empty first line
+    does not hide a second one) -/
+theorem understood_is_plain_get (req : Req) (hu : isRequestMethodUnderstood req = true) :
+    req.method = sGET ∧ Header.has req.header sRange = false := by
+  unfold isRequestMethodUnderstood at hu
+  simp only [Bool.and_eq_true, decide_eq_true_eq, List.isEmpty_iff] at hu
+  refine ⟨hu.1, ?_⟩
+  have h2 := hu.2
+  unfold Header.values at h2
+  unfold Header.has
+  simp only [List.map_eq_nil_iff, List.filter_eq_nil_iff] at h2
+  cases hh : req.header.any (fun p => decide (p.1 = sRange)) with
+  | false => rfl
+  | true =>
+    obtain ⟨p, hp, hq⟩ := List.any_eq_true.mp hh
+    exact absurd hq (h2 p hp)
+
 /-- every index an exchange looks up first is the one under the request's URL key -/
 theorem lookup_uses_url_key (cfg : Cfg) (t0 : Int) (req : Req) (tr : List Step) (r : Result)
     (hu : isRequestMethodUnderstood req = true) (h : Run (roundTrip cfg t0 req) tr r) :
